@@ -113,6 +113,18 @@ def render_case(case, flip: bool = False) -> dict:
     td = h.HTMLTextDocument("<head>@@</head>" + s + s, deps_replace_pattern="@@").render()
     out["extracted"] = [[x.name, str(x.version)] for x in td["dependencies"]]
     out["text_doc"] = digest(td["html"])
+    # a text document that is also given dependencies explicitly: the serialised ones follow in order of appearance
+    given = [x for x in r["dependencies"][:1]]
+    tdg = h.HTMLTextDocument("<head>@@</head>" + s, deps=list(given) if given else [h.HTMLDependency("given", "1.0")], deps_replace_pattern="@@").render()
+    out["text_doc_deps_given"] = [[x.name, str(x.version)] for x in tdg["dependencies"]]
+    out["text_doc_deps_given_html"] = digest(tdg["html"])
+    # the same short string once as text and once as an attribute value, in an order that differs from child to child
+    probe = 'Tom & "Jerry" <' + case.get("label", "") + ">\n'"
+    if flip:
+        e_text, e_attr = h.Tag("p", probe).get_html_string(), h.Tag("p", title=probe).get_html_string()
+    else:
+        e_attr, e_text = h.Tag("p", title=probe).get_html_string(), h.Tag("p", probe).get_html_string()
+    out["escape_both_roles"] = digest(e_text + "|" + e_attr + "|" + h.html_escape(probe) + "|" + h.html_escape(probe, attr=True))
     hc = []
     for p in case.get("payloads", []):
         hc.append(h.head_content(*[build(x) for x in p]).name)
